@@ -21,7 +21,11 @@ func NewIndividualAdditionalNames(individual *gedcom.IndividualNode) *Individual
 
 func (c *IndividualAdditionalNames) WriteHTMLTo(w io.Writer) (int64, error) {
 	rows := []core.Component{}
-	names := c.individual.Names()[1:]
+	// The first name is the primary name. There may be no names at all.
+	names := c.individual.Names()
+	if len(names) > 0 {
+		names = names[1:]
+	}
 
 	for _, name := range names {
 		row := core.NewKeyedTableRow(
